@@ -160,7 +160,9 @@ def typed_terms(tier: str) -> Dict[str, List[Any]]:
             ('idx', ('f', 'xs'), ('fa', A, 'w')), L(1), L(2.5), L(0),
             # an index that carries references in the MIDDLE of a path (not the last accessor)
             ('fa', ('idx', ('f', 'ms'), ('f', 'i')), 'x'), ('idx', ('idx', ('f', 'xss'), ('f', 'i')), L(1)), ('fa', ('idx', ('f', 'fm'), ('bin', '-', ('f', 'i'), ('fa', A, 'w'))), 'y'),
-            ('idx', ('fa', ('idx', ('f', 'ms'), ('idx', ('f', 'xs'), L(0))), 'zs'), ('f', 'i'))]
+            ('idx', ('fa', ('idx', ('f', 'ms'), ('idx', ('f', 'xs'), L(0))), 'zs'), ('f', 'i')),
+            # a path rooted at the OTHER message whose index refers to the current message (the two schemas differ on i, y, w)
+            ('idx', ('fa', A, 'xs'), ('f', 'i')), ('idx', ('fa', ('fa', A, 'm'), 'zs'), ('bin', '+', ('f', 'i'), ('f', 'y')))]
     bool0 = [('f', 'p'), ('f', 'q'), ('f', 'FLAG'), ('fa', ('f', 'm'), 'p'), ('idx', ('f', 'ps'), L(0)), ('fa', A, 'p'), ('fa', ('idx', ('f', 'ms'), L(0)), 'p'), L(True)]
     str0 = [('f', 's'), ('f', 't'), ('f', 'NAME'), ('fa', ('f', 'm'), 's'), ('idx', ('f', 'ss'), L(1)), ('fa', A, 's'), ('str', 'a')]
     narr = [('f', 'xs'), ('f', 'fx'), ('fa', ('f', 'm'), 'zs'), ('fa', A, 'xs'), ('idx', ('f', 'xss'), L(0))]
@@ -202,7 +204,20 @@ def typed_terms(tier: str) -> Dict[str, List[Any]]:
     for op in ('and', 'or', 'implies', 'iff'):
         bool2 += [('bin', op, a, b) for a in sel for b in bools[::9]]
     bool2 += [('not', a) for a in sel]
-    return {'numbers': [('bin', '<', n, ('f', 'y')) for n in nums], 'booleans-depth1': bools, 'booleans-depth2': bool2}
+    # sibling quantifiers that reuse one variable name over domains of different element types; at most one of the two variables is
+    # typed explicitly by its context (the other only through its domain), so no recorded defect class applies
+    q_num = [('q', 'forall', 'v', ('range', L(0), L(3), False, False), ('bin', '<', ('idx', ('f', 'fx'), V), L(87.5))),
+             ('q', 'exists', 'v', ('f', 'xs'), ('bin', '>', V, L(0))), ('q', 'forall', 'v', ('set', L(1), L(2)), ('bin', '<', ('bin', '+', V, L(1)), ('f', 'y')))]
+    q_loose = [('q', 'exists', 'v', ('set', ('str', 'idle'), ('str', 'hold')), ('bin', '=', ('f', 's'), V)), ('q', 'forall', 'v', ('f', 'ss'), ('bin', '!=', V, ('f', 't'))),
+               ('q', 'exists', 'v', ('f', 'ps'), ('bin', '=', V, ('f', 'q'))), ('q', 'forall', 'v', ('set', ('str', 'a')), ('bin', 'in', V, ('f', 'ss'))),
+               ('q', 'exists', 'v', ('set', L(True), L(False)), ('bin', '=', ('f', 'p'), V))]
+    sib = []
+    for a in q_num + q_loose[:2]:
+        for b in q_loose:
+            if a is b:
+                continue
+            sib += [('bin', 'and', a, b), ('bin', 'or', b, a), ('bin', 'and', ('bin', 'and', a, ('f', 'p')), ('not', b))]
+    return {'numbers': [('bin', '<', n, ('f', 'y')) for n in nums], 'booleans-depth1': bools, 'booleans-depth2': bool2, 'sibling-quantifiers': sib}
 
 
 # ---------------------------------------------------------------------------------------------------------------
@@ -219,6 +234,11 @@ def fault_variants(ref) -> List[Tuple[str, Any]]:
         out.append(('unknown-field', ('fa', ref[1], ref[2] + 'zz')))
     if k == 'idx':
         out.append(('index-past-end', ('idx', ref[1], L(99))))
+    # a field that exists only in the OTHER message's schema (own root <-> alias root)
+    if k == 'f':
+        out += [('field-of-the-other-message', ('f', 'w')), ('field-of-the-other-message', ('f', 'MAXV'))]
+    if k == 'fa' and ref[1] == ('var', 'A'):
+        out += [('field-of-the-other-message', ('fa', ref[1], 'y')), ('field-of-the-other-message', ('fa', ref[1], 'i'))]
     # field/array confusion
     out.append(('field-of-it', ('fa', ref, 'x')))
     out.append(('index-of-it', ('idx', ref, L(0))))
@@ -248,3 +268,127 @@ def rename_quantifiers_apart(spec, counter=None):
         return tuple(walk(t) if isinstance(t, tuple) else t for t in s)
 
     return walk(spec)
+
+
+def explicit_context_masks(spec) -> List[Tuple[str, int]]:
+    """for every quantifier of the spec: (variable name, intersection of the types that the CONTEXTS of its occurrences state
+    explicitly) — operator/function parameter types, literal partners of =/!=, literal set/range partners of `in`. Occurrences next to
+    a plain reference, inside a set literal etc. state nothing (all types). Written from the language definition, independent of hpl."""
+    out: List[Tuple[str, int]] = []
+
+    def lit_mask(s):
+        if s[0] == 'lit':
+            return ST.BOOL if (s[1] is True or s[1] is False) else ST.NUMBER
+        if s[0] in ('str', 'apistr'):
+            return ST.STRING
+        if s[0] in ('tok', 'const', 'neg'):
+            return ST.NUMBER
+        return None
+
+    def occ(s, v, ctx, acc):
+        """walk s; ctx = mask that the parent states for s"""
+        if not isinstance(s, tuple):
+            return
+        k = s[0]
+        if k == 'var':
+            if s[1] == v:
+                acc[0] &= ctx
+            return
+        if k == 'q':
+            occ(s[3], v, ST.ANY, acc)
+            if s[2] != v:
+                occ(s[4], v, ST.BOOL, acc)
+            return
+        if k == 'not':
+            occ(s[1], v, ST.BOOL, acc)
+        elif k == 'neg':
+            occ(s[1], v, ST.NUMBER, acc)
+        elif k == 'bin':
+            op, a, b = s[1], s[2], s[3]
+            if op in ('=', '!='):
+                ma, mb = lit_mask(a), lit_mask(b)
+                occ(a, v, mb if mb is not None else ST.ANY, acc)
+                occ(b, v, ma if ma is not None else ST.ANY, acc)
+            elif op == 'in':
+                m = ST.ANY
+                if b[0] == 'range':
+                    m = ST.NUMBER
+                elif b[0] == 'set':
+                    ms = [lit_mask(x) for x in b[1:]]
+                    if ms and all(x is not None for x in ms):
+                        m = 0
+                        for x in ms:
+                            m |= x
+                occ(a, v, m, acc)
+                occ(b, v, ST.ANY, acc)
+            else:
+                p1, p2, _r = ST.BINARY[op]
+                occ(a, v, p1, acc)
+                occ(b, v, p2, acc)
+        elif k == 'call':
+            for a in s[2:]:
+                occ(a, v, ST.NUMBER if s[1] not in ('len', 'sum', 'prod', 'str', 'bool', 'int', 'float', 'max', 'min', 'gcd') else ST.ANY, acc)
+        elif k == 'idx':
+            occ(s[1], v, ST.ARRAY, acc)
+            occ(s[2], v, ST.NUMBER, acc)
+        elif k == 'fa':
+            occ(s[1], v, ST.MESSAGE, acc)
+        elif k == 'range':
+            occ(s[1], v, ST.NUMBER, acc)
+            occ(s[2], v, ST.NUMBER, acc)
+        else:
+            for t in s[1:]:
+                occ(t, v, ST.ANY, acc)
+
+    def walk(s):
+        if not isinstance(s, tuple):
+            return
+        if s[0] == 'q':
+            acc = [ST.ANY]
+            occ(s[4], s[2], ST.BOOL, acc)
+            out.append((s[2], acc[0]))
+        for t in s[1:]:
+            walk(t)
+
+    walk(spec)
+    return out
+
+
+def same_name_explicit_clash(spec) -> bool:
+    """two quantifiers bind one name and the explicitly stated context types of their variables are disjoint"""
+    ms = explicit_context_masks(spec)
+    return any(a[0] == b[0] and not (a[1] & b[1]) for i, a in enumerate(ms) for b in ms[i + 1:])
+
+
+# own-message field names shaped like keywords / constants / units followed by more name characters (all legal names)
+KEYWORDISH = {'x': 'INFO', 'y': 'PIN_gain', 'i': 'iffy', 'p': 'notify', 'q': 'Ex', 's': 'NANOS', 't': 'inside', 'xs': 'android', 'fx': 'orbit', 'ps': 'total',
+              'ss': 'somewhere', 'm': 'msg', 'd': 'E_stop', 'ms': 'asB', 'fm': 'forallx', 'xss': 'existsy', 'K': 'PIx', 'FLAG': 'Truely', 'NAME': 'nothing'}
+
+
+def keywordish_twin(spec):
+    """same predicate with every own-message root field renamed (fields after a dot keep their names)"""
+    def walk(s):
+        if not isinstance(s, tuple):
+            return s
+        if s[0] == 'f':
+            return ('f', KEYWORDISH.get(s[1], s[1]))
+        if s[0] == 'fa':
+            return ('fa', walk(s[1]), s[2])
+        return tuple(walk(t) if isinstance(t, tuple) else t for t in s)
+    return walk(spec)
+
+
+def rotate_types(schema):
+    """the same field tree with every primitive leaf type rotated (num -> str -> bool -> num): a second valid schema for history checks"""
+    rot = {'num': 'str', 'str': 'bool', 'bool': 'num'}
+
+    def r(t):
+        if isinstance(t, str):
+            return rot[t]
+        if t[0] == 'arr':
+            return ('arr', r(t[1]), t[2])
+        if t[0] == 'msg':
+            return ('msg', {k: r(v) for k, v in t[1].items()})
+        raise ValueError(t)
+    vals = {'num': 1, 'str': 'a', 'bool': True}
+    return {'fields': {k: r(v) for k, v in schema['fields'].items()}, 'constants': {k: (rot[v[0]], vals[rot[v[0]]]) for k, v in schema['constants'].items()}}
